@@ -3,10 +3,16 @@
 
   * `check_matches_source` — the conditions of `LLFree::check` are re-derived from the Rust source
     on every run (`tools/rs2lean.py`, `Gen/Check.lean`) and their conjunction is `ArgsValid`.
+
+  * `metadata_sizes_match_source` — the three `metadata_size` computations are re-derived from the
+    Rust source on every run (`tools/rs2lean.py`, `Gen/Meta.lean`) and equal the model's sizes
+    (`Proofs/GenMeta.lean`; the `size_of`/`align_of` values of the five element types are listed
+    there and cross-checked by the unit differential `meta`).
 -/
 import LLFreeV.Proofs.Run
 import LLFreeV.Model.Wrapper
 import LLFreeV.Gen.Check
+import LLFreeV.Proofs.GenMeta
 namespace LLFree.C08
 open LLFree Prog
 
@@ -137,5 +143,15 @@ theorem check_matches_source (c : Cfg) (frame : Nat) (r : Request) :
   by_cases h1 : r.order ≤ c.geom.treeOrder <;> by_cases h2 : frame + 2 ^ r.order < 2 ^ 64 <;>
     by_cases h3 : frame + 2 ^ r.order ≤ c.frames <;> by_cases h4 : frame % 2 ^ r.order = 0 <;>
     by_cases h5 : (c.slotRange r.cls).isSome = true <;> simp [h1, h2, h3, h4, h5]
+
+/-- **The buffer sizes of the model are those of the current source**: `Trees::metadata_size`,
+    `Lower::metadata_size` (through `Metadata::new`) and `Locals::metadata_size` are regenerated from
+    the source on every run (`Gen/Meta.lean`: `div_ceil`, `next_multiple_of`, `size_of_slice` as written)
+    and, for the type sizes of `GenTree.tyOf`, equal the sizes the layout theorems are about. -/
+theorem metadata_sizes_match_source (g : Geom) (frames : Nat) (classes : List (Nat × Nat)) :
+    Gen.M.treesSize (GenTree.tyOf g) g.treeFrames frames = treesSize g frames ∧
+    Gen.M.lowerSize (GenTree.tyOf g) g.hugeFrames g.treeFrames frames = lowerSize g frames ∧
+    Gen.M.localsSize (GenTree.tyOf g) ((classes.map (·.2)).sum) = localsSize classes :=
+  ⟨GenTree.treesSize_eq g frames, GenTree.lowerSize_eq g frames, GenTree.localsSize_eq g classes⟩
 
 end LLFree.C08
